@@ -271,6 +271,49 @@ where
         }
     }
 
+    /// typed decode, typed encode and Value decode must share the depth threshold `depth` of `p`.
+    fn thresholds(&self, v: &T, p: &[u8], depth: usize, ds: Vec<usize>, sh: &mut Shard, origin: &str) {
+        let p = p.to_vec();
+        for d in ds {
+            let Some((t_ok, v_ok)) = self.check(&p, d, sh, origin, false) else { continue };
+            let e_ok = match catch_mut(|| scrypto_encode_with_depth_limit(v, d)) {
+                Ok(r) => r.is_ok(),
+                Err(pi) => {
+                    sh.violation_for(
+                        "C21",
+                        format!("panic:typed-encoder:{}:{}", self.0, pi.site()),
+                        json!({"kind":"typed","type":self.0,"payload":hex(&p),"depth_limit":d,"origin":origin,"panic":pi.summary()}),
+                    );
+                    continue;
+                }
+            };
+            sh.count("typed_threshold_probes");
+            let should = d >= depth;
+            let class = self.depth_class(&p, d);
+            let rel = if d >= depth { "at-or-above-depth" } else { "below-depth" };
+            let detail = json!({"kind":"typed","type":self.0,"payload":hex(&p),"depth_limit":d,"origin":origin,"wire_depth":depth,
+                                "typed_decoder":t_ok,"typed_encoder":e_ok,"value_decoder":v_ok});
+            if v_ok != should {
+                // the Value decoder itself is off: that is the untyped monitor's (and C20's) business
+                sh.count("typed_value_decoder_off_threshold");
+            }
+            if t_ok != should {
+                sh.violation_for(
+                    "C21",
+                    format!("typed-depth:{class}:typed-decoder-{}-{rel}", if t_ok { "accepts" } else { "rejects" }),
+                    detail.clone(),
+                );
+            }
+            if e_ok != should {
+                sh.violation_for(
+                    "C21",
+                    format!("typed-depth:{class}:typed-encoder-{}-{rel}", if e_ok { "accepts" } else { "rejects" }),
+                    detail.clone(),
+                );
+            }
+        }
+    }
+
     /// Root-cause class of a depth disagreement at limit `d` for payload `p`.
     fn depth_class(&self, p: &[u8], d: usize) -> String {
         if self.0.contains("Raw") {
@@ -314,6 +357,9 @@ where
     }
     fn replay(&self, p: &[u8], d: usize, sh: &mut Shard) {
         self.check(p, d, sh, "replay", true);
+        if let (Ok(Ok(v)), Ok(r)) = (catch(|| scrypto_decode_with_depth_limit::<T>(p, 64)), wire::read_payload(Flavour::Scrypto, p)) {
+            self.thresholds(&v, p, r.depth, vec![d], sh, "replay");
+        }
         // threshold sweep
         for dd in 1..=12 {
             if let Some((t, v)) = self.check(p, dd, sh, "replay", true) {
@@ -343,44 +389,7 @@ where
             ds.push(depth - 1);
             ds.push(1 + rng.usize_below(depth));
         }
-        for d in ds {
-            let Some((t_ok, v_ok)) = self.check(&p, d, sh, "typed-encoding", false) else { continue };
-            let e_ok = match catch_mut(|| scrypto_encode_with_depth_limit(&v, d)) {
-                Ok(r) => r.is_ok(),
-                Err(pi) => {
-                    sh.violation_for(
-                        "C21",
-                        format!("panic:typed-encoder:{}:{}", self.0, pi.site()),
-                        json!({"kind":"typed","type":self.0,"payload":hex(&p),"depth_limit":d,"origin":"typed-encoding","panic":pi.summary()}),
-                    );
-                    continue;
-                }
-            };
-            sh.count("typed_threshold_probes");
-            let should = d >= depth;
-            let class = self.depth_class(&p, d);
-            let rel = if d >= depth { "at-or-above-depth" } else { "below-depth" };
-            let detail = json!({"kind":"typed","type":self.0,"payload":hex(&p),"depth_limit":d,"origin":"typed-encoding","wire_depth":depth,
-                                "typed_decoder":t_ok,"typed_encoder":e_ok,"value_decoder":v_ok});
-            if v_ok != should {
-                // the Value decoder itself is off: that is the untyped monitor's (and C20's) business
-                sh.count("typed_value_decoder_off_threshold");
-            }
-            if t_ok != should {
-                sh.violation_for(
-                    "C21",
-                    format!("typed-depth:{class}:typed-decoder-{}-{rel}", if t_ok { "accepts" } else { "rejects" }),
-                    detail.clone(),
-                );
-            }
-            if e_ok != should {
-                sh.violation_for(
-                    "C21",
-                    format!("typed-depth:{class}:typed-encoder-{}-{rel}", if e_ok { "accepts" } else { "rejects" }),
-                    detail.clone(),
-                );
-            }
-        }
+        self.thresholds(&v, &p, depth, ds, sh, "typed-encoding");
         sh.nontrivial(&(self.0, rv_common::h64(&p)));
         // hostile variants of the conformant payload
         let (_, marks) = (0, None::<wire::Marks>);
